@@ -238,7 +238,7 @@ func VerifH_C25_record_roundtrip() {
 	s := c25Make(class)
 	max := 4
 	if vr.Tier() == 1 {
-		max = 18
+		max = 8 // 18 ran for over half an hour at 9 GB
 	}
 	// A concrete zero filler after the symbolic bytes takes the total length across
 	// the 255/256 boundary (high byte of the record length, multi-block CBC, MAC
@@ -247,8 +247,8 @@ func VerifH_C25_record_roundtrip() {
 	// (a 1020-byte filler was tried in the thorough tier: the run was killed for memory)
 	fill := fills[vr.Int("fill", 0, len(fills)-1)]
 	lo := 0
-	if fill > 0 && vr.Tier() == 0 {
-		lo, max = 2, 3 // totals 255 and 256
+	if fill > 0 {
+		lo, max = 2, 3 // totals 255 and 256 (longer symbolic prefixes with the filler ran for 20+ minutes at 7 GB)
 	}
 	payload := append(vr.Bytes("payload", vr.Int("plen", lo, max)), make([]byte, fill)...)
 	typ := recordType(vr.U8("type"))
